@@ -792,6 +792,35 @@ def check_sources(rep, prog, rule='R17b'):
     return n
 
 
+def check_brace_assignment(rep, prog, cls=CLS):
+    """R17d: `x = {}` (assignment from empty braces) yields the zero vector: the overload selected by the compiler for the witness statement is
+    the copy or move assignment from a default-constructed vector.  An added `operator=(const U&)` wins overload resolution (`{}` -> U is an
+    identity conversion) and silently turns the statement into "unit vector {0}"."""
+    n = 0
+    for fn in prog.functions:
+        if not (fn.file.startswith(env.WITNESS)) or fn.body is None:
+            continue
+        for d in fn.walk():
+            if d.k != 'CXXOperatorCallExpr' or d.op != '=' or len(d.c) < 3:
+                continue
+            lt = prog.base_type(d.c[1].strip_all().j.get('t')) or {}
+            if (lt.get('rec') or '') != cls:
+                continue
+            rhs = d.c[2]
+            if rhs.text(6).strip() != '{}':
+                continue
+            n += 1
+            what = '`x = {}` on a sparse GF(2) vector selects the copy/move assignment from a default-constructed (zero) vector'
+            cal = d.callee or {}
+            if cal.get('copy_assign') or cal.get('move_assign'):
+                rep.ok('R17d', d, fn, what, 'resolved to %s' % ('move assignment' if cal.get('move_assign') else 'copy assignment'))
+            else:
+                rep.violation('R17d', d, fn, what, 'overload resolution selects %s(%s): the empty braces become the index 0 and the result is the unit vector {0}, '
+                              'not the zero vector' % (cal.get('q') or cal.get('g'), ', '.join(str(p_) for p_ in (cal.get('params') or []))),
+                              key='R17d|%s|brace-assignment' % cls)
+    return n
+
+
 def check_program(rep, prog, rules=('R17a', 'R17b', 'R17c'), cls=CLS):
     seen = 0
     for fn in prog.functions:
@@ -824,8 +853,10 @@ def run(rep, tier):
     progs = env.extract(tus, 'full')
     rep.saw_programs(progs.values())
     seen = 0
+    rep.rule('R17d', 'assignment from empty braces is the zero vector (overload-resolution witness)', floor=1)
     for prog in progs.values():
         seen = max(seen, check_program(rep, prog))
+        check_brace_assignment(rep, prog)
     if seen < 3:
         rep.analysis_broken('SpVecGF2 operator+ / operator*(SpVecGF2) / operator*(std::set) not all instantiated (%d found)' % seen)
     pos = os.path.join(env.WITNESS, 'positive', 'c17_spvec.cc')
@@ -833,7 +864,8 @@ def run(rep, tier):
         pp = env.extract([pos], 'full', ('first:-I' + os.path.join(env.WITNESS, 'positive', 'broken_include'),))[pos]
         prep = type(rep)(rep.prop, rep.tier)
         check_program(prep, pp)
-        for r in ('R17a', 'R17b', 'R17c'):
+        check_brace_assignment(prep, pp)
+        for r in ('R17a', 'R17b', 'R17c', 'R17d'):
             rep.positive(r, 'witness/positive/c17_spvec.cc', any(i.status == 'violation' and i.rule == r for i in prep.instances.values()))
     except env.AnalysisBroken as e:
         rep.analysis_broken('positive example c17_spvec.cc does not parse: ' + str(e)[:300])
